@@ -2,6 +2,7 @@ package sim
 
 import (
 	"context"
+	"os"
 	"errors"
 	"fmt"
 	"math/rand/v2"
@@ -624,6 +625,7 @@ type Outcome struct {
 	Leaked   bool // goroutines could not be torn down (bubble exit panic)
 	Faults   map[string]int
 	Probes   map[string]int
+	SchedLog []string
 }
 
 // Run executes one plan inside a synctest bubble.
@@ -654,6 +656,10 @@ func Run(t *testing.T, plan *Plan, setup *Setup) (out *Outcome) {
 		s := simrt.Start(simrt.Options{Seed: plan.Sched.Seed, SwitchProb: plan.Sched.SwitchProb, Replay: rp})
 		defer simrt.Stop()
 		defer simnet.Unregister()
+		if os.Getenv("VERIF_SCHEDLOG") != "" {
+			s.LogSched = true
+			defer func() { out.SchedLog = s.SchedLog }()
+		}
 		w := &World{T: t, S: s, Plan: plan, Setup: setup, T0: time.Now(), H: newHistory(), phase: -1,
 			Faults: map[string]int{}, Probes: map[string]int{}}
 		w.netRng = rand.New(rand.NewPCG(plan.Net.Seed, 0x6e6574))
